@@ -76,7 +76,7 @@ def gen(t, tier):
           'work': t.pick([0.0, 0.01, 0.3, 0.6, 2.0, 31.0]),
           'interrupts': []}
     for _ in range(t.randint(1, 3)):
-        kind = t.weighted([('handoff', 3), ('line', 4), ('write', 2)])
+        kind = t.weighted([('handoff', 3), ('line', 4), ('write', 2), ('running', 3)])
         sc['interrupts'].append({'kind': kind, 'at': t.choice(1000), 'hard': bool(t.choice(2)),
                                  'after': bool(t.choice(2))})
     return sc
@@ -291,6 +291,17 @@ def run(sc, tape):
     w.fs.fault_hook = fs_hook
     w.extra_patches.append((seeder, 'TileWorkerPool', RecordingPool))
 
+    # the public stop hook of the walker: an embedding application makes SeedProgress.running() return False
+    def running(self):
+        if state.get('running_target') is not None:
+            n = state['running_calls']
+            state['running_calls'] += 1
+            if n >= state['running_target']:
+                state['fired'] = 'running'
+                return False
+        return True
+    w.extra_patches.append((seeder.SeedProgress, 'running', running))
+
     traced = ('/mapproxy/seed/seeder.py', '/mapproxy/seed/util.py', '/mapproxy/util/fs.py')
 
     def tracer(frame, event, arg):
@@ -376,12 +387,16 @@ def run(sc, tape):
             state['handoffs'] = 0
             state['lines'] = 0
             state['line_target'] = -1
+            state['running_target'] = 1 << 60
+            state['running_calls'] = 0
             sys.settrace(tracer)
             try:
                 one_segment(False)
             finally:
                 sys.settrace(None)
             total_lines = state['lines']
+            total_running = state['running_calls']
+            state['running_target'] = None
             total_writes = None
 
             # 2. interrupted and continued run
@@ -393,7 +408,7 @@ def run(sc, tape):
             segs = []
             for it in sc['interrupts'] + [None]:
                 state.update({'handoffs': 0, 'lines': 0, 'writes': 0, 'interrupt_at_handoff': None, 'line_target': None,
-                              'write_target': None, 'fired': None, 'dead': False})
+                              'write_target': None, 'fired': None, 'dead': False, 'running_target': None, 'running_calls': 0})
                 w.main_proc.dead = False
                 if it is not None:
                     state['hard'] = it['hard']
@@ -402,6 +417,8 @@ def run(sc, tape):
                         state['interrupt_at_handoff'] = it['at'] % max(1, total_handoffs)
                     elif it['kind'] == 'line':
                         state['line_target'] = it['at'] * max(1, total_lines) // 1000
+                    elif it['kind'] == 'running':
+                        state['running_target'] = it['at'] * max(1, total_running) // 1000
                     else:
                         state['write_target'] = it['at'] % 12
                 seg_start = len(handed)
@@ -419,6 +436,7 @@ def run(sc, tape):
                 w.main_proc.dead = False
                 state['dead'] = False
                 state['interrupt_at_handoff'] = state['line_target'] = state['write_target'] = None
+                state['running_target'] = None
                 seg = handed[seg_start:]
                 Hall.update(mkey(c) for c in seg)
                 segs.append({'interrupt': it, 'fired': state['fired'], 'handed': len(seg), 'finished': finished,
